@@ -53,6 +53,55 @@ def post(st):
             "holding": sorted(h["c"] for h in st["holding"]["#set"])}
 
 
+def slot_behaviours(cfg, limit, num, depth, base):
+    """environment actions of simulated behaviours of spec/SlotSem.tla"""
+    wd = vlib.scratch("slotsim")
+    r = vlib.run_tlc("SlotSem", cfg, workdir=wd, workers=1, timeout=600,
+                     simulate="file=%s/b,num=%d" % (wd, num), depth=depth, extra=["-seed", str(vlib.seed())])
+    out = []
+    for k, f in enumerate(sorted(glob.glob(os.path.join(wd, "b_*")))):
+        steps = [{"a": st["hist"]["a"], "j": st["hist"]["j"]} for st in vlib.parse_sim_file(f)[1:]]
+        if any(s["a"] == "Cancel" for s in steps) or k % 3 == 0:
+            out.append({"id": base + k, "limit": limit, "jobs": 4, "steps": steps})
+    return r, out
+
+
+def slot_semaphore(tier, viols, tlc_cmds):
+    """spec/SlotSem.tla exhaustively (the code's signalling, and the variant that must stall),
+    then its behaviours - of both variants - on the real MaxJobsSemaphore"""
+    ok = vlib.run_tlc("SlotSem", "SlotSem.cfg", workers=8, timeout=1200)
+    if not ok.ok:
+        raise vlib.Infra("SlotSem violates %s (specification problem)" % ok.violation)
+    bad = vlib.run_tlc("SlotSem", "SlotSemBad.cfg", workers=4, timeout=600)
+    if bad.ok or bad.violation != "NoStall":
+        raise vlib.Infra("SlotSemBad (signal only after a successful acquisition) does not violate NoStall: vacuous (%s)" % bad.violation)
+    tlc_cmds.append("SlotSem.cfg: %d distinct states, WithinLimit, OnlyLive, NoStall and the liveness property Admitted hold (4 jobs, 2 slots, 2 cancellations); the variant without the deferred signal violates NoStall after %d states" % (ok.distinct, bad.generated))
+    num, depth = (150, 40) if tier == "quick" else (1500, 60)
+    behs = []
+    for i, (cfg, lim) in enumerate((("SlotSemSim.cfg", 2), ("SlotSemSim1.cfg", 1), ("SlotSemBadSim.cfg", 2), ("SlotSemBadSim1.cfg", 1))):
+        r, b = slot_behaviours(cfg, lim, num, depth, i * 100000)
+        behs += b
+    wd = vlib.scratch("slotrep")
+    path = os.path.join(wd, "b.ndjson")
+    with open(path, "w") as f:
+        for b in behs:
+            f.write(json.dumps(b) + "\n")
+    p = vlib.run_harness(["slot-replay", path, wd], timeout=1500)
+    rep = json.loads(p.stdout)
+    if rep["infra"]:
+        raise vlib.Infra("slot-replay: %s" % rep["infra"][:3])
+    by_id = {b["id"]: b for b in behs}
+    for v in rep["violations"]:
+        b = by_id[v["behaviour"]]
+        env = [s for s in b["steps"] if s["a"] in ("Call", "Cancel", "Release", "End", "FindDone")]
+        viols.append({"key": "slots:%s:limit%d" % (v["kind"], b["limit"]),
+                      "what": "MaxJobsSemaphore %s (limit %d): %s; after %s" % (v["kind"], b["limit"], v["detail"],
+                                                                            " ".join("%s(%s)" % (s["a"], s["j"]) for s in env[-12:])),
+                      "replay": {"behaviour.ndjson": json.dumps(b) + "\n"}})
+    return {"slot_behaviours_replayed": rep["behaviours"], "slot_actions": rep["actions"], "slot_goroutines_parked": rep["goroutines_parked"],
+            "slot_states": ok.distinct}
+
+
 def local_limit_runs(tier, viols):
     """Real mrp / mrjob processes with stages that declare thread and memory requests, under
     --localcores / --localmem smaller than what the stages could use together.  Between the
@@ -197,6 +246,8 @@ def run(tier, replay=None):
     trans += lj.generated
     tlc_cmds.append("LocalJM.cfg: %d distinct states, WithinLimits, RunningHold and the liveness property AllDone hold for every assignment of 4 requests" % lj.distinct)
     local_report = local_limit_runs(tier, viols)
+    slot_cov = slot_semaphore(tier, viols, tlc_cmds)
+    states += slot_cov["slot_states"]
     # 3. cluster mode: --maxjobs with a real RemoteJobManager, the driver plays the
     #    cluster; plain runs and runs in which mrp exits and is restarted while jobs
     #    are queued or running on the cluster (MaxJobs.tla's Exit / Restart)
@@ -274,10 +325,12 @@ def run(tier, replay=None):
         "cluster_runs": len(cspecs), "cluster_runs_with_restart": sum(1 for x in cspecs if x.get("restart")),
         "cluster_submissions_observed": nsub, "peak_jobs_on_cluster": peak,
         "local_limit_runs": local_report,
+        "slot_semaphore": slot_cov,
         "known_findings_hit": hit,
     }, [
         "local mode under limits: real mrp and mrjob processes, stages with declared threads / mem_gb (also above the limits and fractional), --localcores / --localmem 1..4; the reservations are the ones mrp wrote to each job's _jobinfo, the window is the job manager's ProcStart .. ProcExit (inside the reservation); LocalJM.tla is the design-level statement of the same invariant plus termination",
         "cluster mode: a real RemoteJobManager (template file, submit command that prints a job id, --maxjobs 1..3); the driver plays the cluster: a job is on the cluster from the SendJob hook until its process ends; after a failure mrp exits, the cluster jobs live on, a fresh runtime re-attaches (Reset, RestartLocalJobs with the cluster job mode, as cmd/mrp does); PsTrace (TLC) judges every submission",
+        "SlotSem.tla makes the condition variable of maxjobs_semaphore.go explicit; behaviours of the model (of the code's signalling and of the variant that swallows wake-ups) are replayed as Call / Cancel / Release / End / FindDone on the real MaxJobsSemaphore with one goroutine per Acquire; a stall is only reported after all goroutines have been quiet for 300 ms with a free slot and a live waiter",
         "ResSem.tla transcribes resource_semaphore.go one action per critical section; MaxSize 4, 3 clients, amounts {0,1,2,3,5}, updates from {-1,0,2,4,6}",
         "replay drives the exported ResourceSemaphore API, one goroutine per blocked Acquire; verdicts only from the real object's Reserved/CurrentSize/QueueLength and which Acquire calls returned",
         "UpdateSize is only explored with values <= maxSize (the only caller passes rlimit cur <= max)",
